@@ -76,3 +76,26 @@ Print Assumptions C15_lines_cover_input.
 Example C15_example :
   lines_of_chunks [[97; 98]; [10; 99]; [100]]%N = [[97; 98; 10]; [99; 100]]%N.
 Proof. vm_compute. reflexivity. Qed.
+
+(** a line that is printed as it is (every row of a filter-only query) keeps its bytes: only the terminator - LF, or the
+    CR LF of CRLF input - is stripped, not trailing blanks or tabs (fix 7f51c1d) *)
+Theorem C15_printed_line_keeps_its_bytes : forall s : str,
+  (forall c, last s 0%N = c -> c <> 10%N /\ c <> 13%N) ->
+  strip_eol (s ++ [10%N]) = s /\ strip_eol (s ++ [13%N; 10%N]) = s /\ strip_eol s = s.
+Proof.
+  intros s Hl. unfold strip_eol.
+  assert (H : drop_eol_rev (rev s) = rev s).
+  { destruct (rev s) as [|c r] eqn:E; [reflexivity|].
+    assert (Hc : last s 0%N = c).
+    { rewrite <- (rev_involutive s), E. cbn [rev]. apply last_last. }
+    destruct (Hl c Hc) as [H1 H2]. cbn [drop_eol_rev].
+    destruct (N.eqb_spec c 10); [contradiction|]. destruct (N.eqb_spec c 13); [contradiction|]. reflexivity. }
+  repeat split.
+  - rewrite rev_app_distr. cbn [rev app drop_eol_rev N.eqb orb]. cbn. rewrite H. apply rev_involutive.
+  - rewrite rev_app_distr. cbn [rev app]. cbn. rewrite H. apply rev_involutive.
+  - rewrite H. apply rev_involutive.
+Qed.
+Print Assumptions C15_printed_line_keeps_its_bytes.
+Example C15_trailing_blanks_kept :
+  strip_eol (lit "x  " ++ [10%N]) = lit "x  " /\ strip_eol ([9%N; 13%N; 10%N]) = [9%N] /\ strip_eol (lit "z") = lit "z".
+Proof. vm_compute. repeat split. Qed.
